@@ -589,4 +589,69 @@ theorem mkMsg_shape (t : List Desc) (outs : List SubsetOut) (m : QMsg) (h : mkMs
     obtain ⟨_, _, hs, _⟩ := wire_shape t p.1 p.2 (mapM_pointwise (wire t) outs trees hw p hp)
     exact hs
 
+/-! ### compressed data: the shape condition carries over from subset 0 to a subset with the same replication counts -/
+
+mutual
+theorem repsOKList_transfer (o0 o : SubsetOut) : ∀ (l : List Node),
+    repsOKList o0 l = true → Spec.sameCountsList o0 o l = true → repsOKList o l = true
+  | [], _, _ => by rw [repsOKList]
+  | n :: ns, h, hs => by
+    rw [repsOKList] at h ⊢
+    rw [Spec.sameCountsList] at hs
+    simp only [Bool.and_eq_true] at h hs ⊢
+    exact ⟨repsOK1_transfer o0 o n h.1 hs.1, repsOKList_transfer o0 o ns h.2 hs.2⟩
+
+theorem repsOK1_transfer (o0 o : SubsetOut) : ∀ (n : Node),
+    repsOK1 o0 n = true → Spec.sameCounts1 o0 o n = true → repsOK1 o n = true
+  | .value _ _ attrs, h, hs => by
+    rw [repsOK1] at h ⊢
+    rw [Spec.sameCounts1] at hs
+    exact repsOKList_transfer o0 o attrs h hs
+  | .noval _, _, _ => by rw [repsOK1]
+  | .seq _ ms, h, hs => by
+    rw [repsOK1] at h ⊢
+    rw [Spec.sameCounts1] at hs
+    exact repsOKList_transfer o0 o ms h hs
+  | .fixedRep _ _ ms, h, hs => by
+    rw [repsOK1] at h ⊢
+    rw [Spec.sameCounts1] at hs
+    simp only [Bool.and_eq_true] at h ⊢
+    exact ⟨h.1, repsOKList_transfer o0 o ms h.2 hs⟩
+  | .delayedRep _ _ (.value _ i attrs) ms, h, hs => by
+    rw [repsOK1] at h ⊢
+    rw [Spec.sameCounts1] at hs
+    simp only [Bool.and_eq_true, decide_eq_true_eq] at h hs ⊢
+    rw [hs.1.1]
+    exact ⟨⟨h.1.1, repsOKList_transfer o0 o attrs h.1.2 hs.1.2⟩, repsOKList_transfer o0 o ms h.2 hs.2⟩
+  | .delayedRep _ _ (.noval _) _, h, _ => by simp [repsOK1] at h
+  | .delayedRep _ _ (.seq _ _) _, h, _ => by simp [repsOK1] at h
+  | .delayedRep _ _ (.fixedRep _ _ _) _, h, _ => by simp [repsOK1] at h
+  | .delayedRep _ _ (.delayedRep _ _ _ _) _, h, _ => by simp [repsOK1] at h
+end
+
+/-- compressed data: the message handed to `query` satisfies the shape hypothesis of `C16_query_eq_eval_compressed`
+    when every subset carries the delayed replication counts of subset 0 (`Spec.sameCountsList`, decidable) -/
+theorem mkMsg_shape_compressed (t : List Desc) (outs : List SubsetOut) (m : QMsg) (h : mkMsg t true outs = .ok m)
+    (o0 : SubsetOut) (t0 : List Node) (h0 : outs[0]? = some o0) (hw : wire t o0 = .ok t0)
+    (hcounts : ∀ o ∈ outs, Spec.sameCountsList o0 o t0 = true) : Spec.shapeOK m = true := by
+  unfold mkMsg wireAll at h
+  simp only [if_true] at h
+  cases outs with
+  | nil => simp at h0
+  | cons o os =>
+    simp only [List.getElem?_cons_zero, Option.some.injEq] at h0
+    subst h0
+    simp only [hw] at h
+    cases h
+    unfold Spec.shapeOK
+    rw [List.all_eq_true]
+    intro p hp
+    obtain ⟨a, b⟩ := p
+    have hm := List.of_mem_zip hp
+    obtain ⟨_, _, hb⟩ := List.mem_map.mp hm.2
+    simp only at hb ⊢
+    subst hb
+    obtain ⟨_, _, hs, _⟩ := wire_shape t o t0 hw
+    exact repsOKList_transfer o a t0 hs (hcounts a hm.1)
+
 end Bufr.C16
